@@ -625,6 +625,16 @@ class Interp(object):
 
     def _lex_compare(self, op, a, b):
         """lexicographic ordering of tuples/lists with symbolic members"""
+        # all-numeric members: one boolean term, no forking
+        if len(a) == len(b) and all((is_intlike(x) or is_reallike(x)) and not isinstance(x, bool) for x in list(a) + list(b)):
+            use_real = any(is_reallike(x) for x in list(a) + list(b))
+            term = (lambda v: real_term(v)) if use_real else (lambda v: int_term(v))
+            less = isinstance(op, (ast.Lt, ast.LtE))
+            acc = z3.BoolVal(isinstance(op, (ast.LtE, ast.GtE)))        # all members equal
+            for x, y in reversed(list(zip(a, b))):
+                tx, ty = term(x), term(y)
+                acc = z3.Or(tx < ty if less else tx > ty, z3.And(tx == ty, acc))
+            return mk_bool(z3.simplify(acc))
         strict = isinstance(op, (ast.Lt, ast.Gt))
         lt_op = ast.Lt() if isinstance(op, (ast.Lt, ast.LtE)) else ast.Gt()
         n = min(len(a), len(b))
